@@ -526,7 +526,7 @@ def alignment_family():
         for sname, crossings in structures:
             for mode in ("repeat", "weight"):
                 for al in ("post preamble", "parallel start"):
-                    tag = "al-%s-%s-%s-%s" % (dname, sname, mode, al.split()[0])
+                    tag = "al-%s-%s" % (dname, al.split()[0])
                     out.append((tag + "-multi", {
                         "factors": factors, "constraints": [],
                         "blocks": [{"id": 0, "kind": "MultiCrossBlock", "design": design, "crossings": crossings, "constraints": [],
@@ -819,6 +819,10 @@ def explain_trials(p, blk, dT, T):
 
 
 def replay(ctx, data):
+    if "program" not in data:
+        # a broken-tie replay (no failing input): re-run the audit of the theorem file
+        import common
+        return bool(common.property_audit(ctx.prop)[4])
     p = data["program"]
     sig = data.get("sig", "")
     if sig.startswith("length:"):
